@@ -277,23 +277,24 @@ def matchDump (m : Model.Match) : String :=
 def triName : Model.Tri → String
   | .match => "MATCH" | .nomatch => "NOMATCH" | .error => "ERROR"
 
-/-- The file-time oracle handed over by the harness in the place of a directory argument:
-`\x01T<atime> <mtime> <ctime>\x01<time_format atime>\x01<.. mtime>\x01<.. ctime>` (what `stat` said about the message file). -/
-def fileTimes (dirs : List Bytes) (f : Model.DateField) : Option (Int × Bytes) :=
+/-- The `stat` oracle handed over by the harness in the place of a directory argument:
+`\x01T<atime> <mtime> <ctime>\x01<time_format atime>\x01<.. mtime>\x01<.. ctime>` (what `stat` said about the message file).
+The model selects the field itself (`Model.eval`, the `date` case); `time_format` is served for the three instants reported. -/
+def statBlob (dirs : List Bytes) : Option (Model.FileTimes × List (Int × Bytes)) :=
   match dirs.find? (fun d => d.take 2 == [1, 84]) with
   | none => none
   | some d =>
     match (d.drop 2).splitOn 1 with
     | [nums, fa, fm, fc] =>
       match ((String.ofList (nums.map fun c => Char.ofNat c.toNat)).splitOn " ").map String.toInt? with
-      | [some a, some m, some c] =>
-        match f with
-        | .access => some (a, fa)
-        | .modified => some (m, fm)
-        | .created => some (c, fc)
-        | .header => none
+      | [some a, some m, some c] => some ({ atime := a, mtime := m, ctime := c }, [(a, fa), (m, fm), (c, fc)])
       | _ => none
     | _ => none
+
+def fileTimes (dirs : List Bytes) (_path : Bytes) : Option Model.FileTimes := (statBlob dirs).map (·.1)
+
+def timeFormats (dirs : List Bytes) (t : Int) : Option Bytes :=
+  (statBlob dirs).bind fun b => (b.2.find? (·.1 == t)).map (·.2)
 
 /-- `eval <ast> <message> <path> <dryrun:0|1> <now decimal as ascii> <existing dir>*` -/
 def handleEval (args : List Bytes) : String :=
@@ -310,7 +311,7 @@ def handleEval (args : List Bytes) : String :=
       | some mf =>
         let env : Model.Env := {
           rx := rxFFI, command := commandOracle, isDir := fun p => dirs.contains p || (ofString "/yes").isSuffixOf p, now := nowI,
-          strptime := strptimeEnv, zoneName := zoneEnv nowI, fileTime := fileTimes dirs,
+          strptime := strptimeEnv, zoneName := zoneEnv nowI, fileTime := fileTimes dirs, timeFormat := timeFormats dirs,
           dryrun := dry == ofString "1", path := path }
         let (tri, st) := Model.eval env msg e 0 msg { ml := [], flags := mf }
         let parts := (Model.getAttachments msg).getD []
